@@ -472,7 +472,12 @@ func ToPairAlign(samIn, ref io.Reader, outpath string, wrap int, trimStart int, 
 
 	go groupSamRecords(samIn, cSH, cSR, cReadDone, cErr)
 
-	_ = <-cSH
+	// the reader reports an empty or unparsable stream on cErr before it can send a header
+	select {
+	case err := <-cErr:
+		return err
+	case <-cSH:
+	}
 
 	go writePairwiseAlignment(outpath, wrap, cPairTrim, cWriteDone, cErr, omitRef)
 
